@@ -47,6 +47,21 @@ pub fn run(ctx: &mut Ctx) {
             run_history(ctx, &cfg, &ops, &c2);
         });
     }
+    // ---- regime weak_hash: fault injection on hash quality (hooks H6/H7): node hashes fall into a
+    // few classes and the lossy cache's triple hashes into 1-17 classes; every operation must
+    // still compute its function
+    for case in ctx.cases("weak_hash", 400, true) {
+        let c2 = checks.clone();
+        ctx.run_case("weak_hash", case, move |ctx, rng| {
+            let mut cfg = random_cfg(rng, 6, true);
+            cfg.nops = rng.range(5, 60);
+            let ops = gen_history(&cfg, rng);
+            let w = crate::caps::WeakHash::new(Some(crate::caps::weak_classes(rng, &ctx.profile.clone(), false)), Some(*rng.pick(&[1u64, 2, 5, 17])));
+            run_history(ctx, &cfg, &ops, &c2);
+            ctx.count("histories_with_weak_hashes", 1);
+            ctx.count("unique_table_hash_clashes", w.clashes());
+        });
+    }
     // ---- regime long: few long hostile histories, n <= 10, tiny tables
     for case in ctx.cases("long", 16, true) {
         let c2 = checks.clone();
